@@ -400,6 +400,8 @@ class Interp:
         self.hooks.on_read(self, cell, node)
         v = cell.value
         if v is UNDEF:
+            if node is not None and base_type(node.get('t', '')) == 'unsigned char':
+                return UNDEF  # copying an indeterminate unsigned char is well defined; the value stays indeterminate
             if hasattr(self.hooks, 'on_undef_read'):
                 r = self.hooks.on_undef_read(self, cell, node)
                 if r is not NotImplemented:
@@ -1128,6 +1130,15 @@ class Interp:
         if op == '&':
             if c['k'] == 'DeclRefExpr' and c.get('dk') in ('Function', 'CXXMethod'):
                 return FuncRef(c.get('qname') or c['name'], c['id'])
+            core = c
+            while core['k'] == 'ParenExpr':
+                core = core['c'][0]
+            if core['k'] == 'ArraySubscriptExpr':
+                # &p[i] is pointer arithmetic (also for the one-past-the-end element): no access takes place
+                b = self.eval(core['c'][0])
+                i = self.eval(core['c'][1])
+                if isinstance(b, Ptr) and not b.dims:
+                    return self.ptr_add(b, i)
             cell = self.lval(c)
             if cell.region is None:
                 r = Region(cell.name or 'obj', 1, None, 'obj')
